@@ -23,7 +23,7 @@ ASSUMPTIONS = [
     "'any interleaving' and 'fresh process' are sampled, not enumerated; frameworks whose functions call rand/randn are not generated",
     "declared metadata (uid, created, modified, version, gitinfo) is excluded from the structural comparison",
 ]
-BUDGET = {"quick": 400, "thorough": 10000}
+BUDGET = {"quick": 400, "thorough": 1200}  # thorough = 3x quick: a depth that was run to completion, quiet, at seed 1 (deterministic given the seed)
 TIME_CAP = {"quick": 75, "thorough": 1500}
 PROFILE = {"p_deriv": 0.2, "p_agg_transition": 0.1, "p_programs": 0.6, "max_steps": 10, "min_steps": 3, "extreme": 0.05, "p_function": 0.4, "p_timed": 0.4, "p_junction": 0.4, "p_output_pars": 0.5, "max_pops": 2, "p_interaction": 0.4}
 OPS = ["run", "run", "rerun", "run_noprog", "deepcopy", "pickle", "saveload", "saveload", "runsim_api", "report", "rejected_run", "scenario"]
